@@ -675,6 +675,35 @@ pub fn c06(ctx: &mut Ctx) {
             });
         }
     }
+    // consecutive derivations (same thread, same secret and date) for scope pairs that coincide once joined by
+    // '/' or simply concatenated: each must still be its own HMAC chain, in either order, also when repeated
+    for (si, secret) in ["wJalrXUtnFEMI/K7MDENG+bPxRfiCYEXAMPLEKEY", "k"].iter().enumerate() {
+        for &(y, m, d) in &[(2015i32, 8u32, 30u32), (2018, 12, 31)] {
+            let date = NaiveDate::from_ymd_opt(y, m, d).unwrap();
+            let groups: [&[(&str, &str)]; 4] = [
+                &[("us/east", "1"), ("us", "east/1"), ("us/east", "1")],
+                &[("a", "b/c"), ("a/b", "c"), ("a/b/c", ""), ("", "a/b/c")],
+                &[("ab", "c"), ("a", "bc"), ("abc", ""), ("ab", "c")],
+                &[("us-east-1", "s3"), ("us-east-1", "s3"), ("us-east-1", "iam"), ("eu-west-1", "s3"), ("us-east-1", "s3")],
+            ];
+            for g in groups.iter() {
+                for (region, service) in g.iter() {
+                    let imp_out = imp::keys44(secret, date, region, service);
+                    let ds = format!("{:04}{:02}{:02}", y, m, d);
+                    let ch = rs::key_chain(secret.as_bytes(), &ds, region, service);
+                    tris.push(Tri {
+                        op: "KEYS",
+                        line: format!("KEYS 44 {} {} {} {} {} {}", hx(secret.as_bytes()), y, m, d, hx(region.as_bytes()), hx(service.as_bytes())),
+                        imp: Some(imp_out),
+                        spec: Some(format!("OK {} {} {} {} {} 1", hx(secret.as_bytes()), hx(&ch[0]), hx(&ch[1]), hx(&ch[2]), hx(&ch[3]))),
+                        class: "keys-consecutive-scopes".into(),
+                        clause: "derived keys (or a shortcut derivation) differ from the SigV4 HMAC chain when several scopes are derived one after another in one thread",
+                        show: format!("secret #{} date {}-{}-{} region \"{}\" service \"{}\" (in a run of consecutive derivations)", si, y, m, d, region, service),
+                    });
+                }
+            }
+        }
+    }
     if ctx.rep.samples.len() < 6 {
         ctx.rep.sample("KEYS: every secret length 0..=48 at capacity 44 with dates incl. 0001-01-01, leap days, 9999-12-31, empty and non-ASCII region/service".into());
     }
